@@ -49,3 +49,20 @@ pub fn panic_msg(e: &Box<dyn std::any::Any + Send>) -> String {
 pub fn quiet_panics() {
     std::panic::set_hook(Box::new(|_| {}));
 }
+
+
+/// Diagnostic watchdog for long checks: names (on stderr) any job that has been running for more than `secs`
+/// seconds.  It cannot stop the job; it only tells which input is responsible.
+pub struct Watch { inner: std::sync::Arc<std::sync::Mutex<std::collections::HashMap<usize, (std::time::Instant, String)>>>, done: std::sync::Arc<std::sync::atomic::AtomicBool> }
+
+impl Watch {
+    pub fn new(label: &'static str, secs: u64) -> Watch {
+        let inner: std::sync::Arc<std::sync::Mutex<std::collections::HashMap<usize, (std::time::Instant, String)>>> = Default::default();
+        let done = std::sync::Arc::new(std::sync::atomic::AtomicBool::new(false));
+        { let inner = inner.clone(); let done = done.clone(); std::thread::spawn(move || { let mut told: std::collections::HashSet<usize> = Default::default(); while !done.load(std::sync::atomic::Ordering::Relaxed) { std::thread::sleep(std::time::Duration::from_secs(5)); for (j, (t, what)) in inner.lock().unwrap().iter() { if t.elapsed().as_secs() > secs && told.insert(*j) { eprintln!("{} slow job {} (>{}s): {}", label, j, secs, what); } } } }); }
+        Watch { inner, done }
+    }
+    pub fn enter(&self, j: usize, what: &str) { self.inner.lock().unwrap().insert(j, (std::time::Instant::now(), what.to_string())); }
+    pub fn leave(&self, j: usize) { self.inner.lock().unwrap().remove(&j); }
+}
+impl Drop for Watch { fn drop(&mut self) { self.done.store(true, std::sync::atomic::Ordering::Relaxed); } }
